@@ -51,6 +51,7 @@ class Check:
         self.known = []
         self.notes = {}
         self.distinct = set()
+        self.outcomes = {}          # "op/kind[/err]" -> number of generated transitions of that class
         d = outdir(prop)
         for f in os.listdir(d):
             if f.startswith("violation-"):
